@@ -101,6 +101,16 @@ def check(ctx):
     ctx.ob("R1", f"{BI}:XonshPathLiteralChangeDirectoryContextManager.__enter__", "saves the current directory before moving", ok, key="pathliteral|saved-late")
     ok = any(call_name(c) == "os.chdir" and c.args and unparse(c.args[0]) == slot for c in calls_in(exi)) and not any(isinstance(n, ast.If) for n in walk_local(exi))
     ctx.ob("R1", f"{BI}:XonshPathLiteralChangeDirectoryContextManager.__exit__", "unconditionally returns to the saved directory", ok, key="pathliteral|not-restored")
+    # with_pushd (api.os.indir): a successful pushd is undone by popd on every exit
+    if ctx.repo.module(DS).has("with_pushd"):
+        wp = ctx.repo.module(DS).func("with_pushd")
+        wcfg = CFG(wp, catchall=("BaseException",))
+        ys = [n for n in wcfg.nodes if n.kind == "stmt" and any(isinstance(x, ast.Yield) for x in ast.walk(n.ast))]
+        pops = [n for n in wcfg.nodes if n.kind == "stmt" and any(call_name(c) in ("popd_fn", "popd") for c in calls_in(n.ast))]
+        ok = bool(ys) and bool(pops)
+        if ok:
+            ok, _ = wcfg.must_pass(ys, lambda m_: m_ in pops)
+        ctx.ob("R1", f"{DS}:with_pushd", "the pushd context manager pops on every exit (normal, exception, generator close)", ok, key="with_pushd|not-popped", where=loc(wp))
     # $PWD / $OLDPWD writers
     n_w = 0
     for m in ctx.repo.modules("xonsh", "xontrib", exclude=("xonsh/pytest/",), containing=("PWD",)):
